@@ -3,13 +3,12 @@ from . import copsuite as S
 
 OUTSIDE = ['float64 rounding near the boundary; Frank overflow for huge |theta|',
            '2-increasingness is derived (FTC) from density>=0 plus the C07 derivative identities',
-           'theta ordering is attempted only in the thorough tier']
+           'ordering in theta (larger theta gives pointwise larger C): needs monotonicity in a parameter that sits in an exponent; the '
+           'sound exp/log axiom instances do not decide it (spurious models) - dropped from the claim']
 
 
 def run(tier, seed):
     obs = dict(S.C06_OBS)
-    if tier == 'thorough':
-        obs.update(S.C06_THOROUGH)
     return S.drive('C06', tier, seed, obs, ['cumulative_distribution'], OUTSIDE)
 
 
